@@ -87,6 +87,13 @@ impl Default for RealtimeConfig {
     }
 }
 
+/// First byte of every block produced by [`RealtimeCompressor`]: the payload follows unchanged
+/// (deadline fallback, or the tiny-input shortcut of the ultra-low-latency mode)
+const BLOCK_RAW: u8 = 0;
+/// First byte of every block produced by [`RealtimeCompressor`]: the payload was produced by
+/// the active compressor
+const BLOCK_COMPRESSED: u8 = 1;
+
 /// Real-time compressor with strict latency guarantees
 pub struct RealtimeCompressor {
     config: RealtimeConfig,
@@ -240,11 +247,25 @@ impl RealtimeCompressor {
 
     /// Decompress data
     pub async fn decompress(&self, data: &[u8]) -> Result<Vec<u8>> {
-        let compressor = self.compressor.read()
-            .map_err(|e| crate::error::ZiporaError::system_error(
-                format!("RealtimeCompressor: compressor RwLock poisoned: {}", e)
-            ))?;
-        compressor.decompress(data)
+        // The first byte says whether the block was compressed or stored raw (fallback)
+        let (&tag, payload) = match data.split_first() {
+            Some(parts) => parts,
+            None => return Ok(Vec::new()),
+        };
+
+        match tag {
+            BLOCK_RAW => Ok(payload.to_vec()),
+            BLOCK_COMPRESSED => {
+                let compressor = self.compressor.read()
+                    .map_err(|e| crate::error::ZiporaError::system_error(
+                        format!("RealtimeCompressor: compressor RwLock poisoned: {}", e)
+                    ))?;
+                compressor.decompress(payload)
+            }
+            _ => Err(ZiporaError::invalid_data(
+                "Invalid block tag in real-time compressed data",
+            )),
+        }
     }
 
     /// Batch compress multiple items
@@ -305,14 +326,26 @@ impl RealtimeCompressor {
     async fn compress_internal(&self, data: &[u8]) -> Result<Vec<u8>> {
         // For very small data, consider skipping compression
         if data.len() < 64 && self.config.mode == CompressionMode::UltraLowLatency {
-            return Ok(data.to_vec());
+            return Ok(Self::raw_block(data));
         }
 
         let compressor = self.compressor.read()
             .map_err(|e| crate::error::ZiporaError::system_error(
                 format!("RealtimeCompressor: compressor RwLock poisoned: {}", e)
             ))?;
-        compressor.compress(data)
+        let compressed = compressor.compress(data)?;
+        let mut block = Vec::with_capacity(compressed.len() + 1);
+        block.push(BLOCK_COMPRESSED);
+        block.extend_from_slice(&compressed);
+        Ok(block)
+    }
+
+    /// Frame `data` as a raw (uncompressed) block
+    fn raw_block(data: &[u8]) -> Vec<u8> {
+        let mut block = Vec::with_capacity(data.len() + 1);
+        block.push(BLOCK_RAW);
+        block.extend_from_slice(data);
+        block
     }
 
     /// Handle timeout by falling back to no compression
@@ -327,8 +360,9 @@ impl RealtimeCompressor {
         }
 
         if self.config.fallback_on_timeout {
-            // Use fallback compressor (no-op)
-            self.fallback_compressor.compress(data)
+            // Use fallback compressor (no-op); the block is tagged so that decompress()
+            // does not run the mode's decoder on it
+            Ok(Self::raw_block(&self.fallback_compressor.compress(data)?))
         } else {
             Err(ZiporaError::configuration("compression deadline exceeded"))
         }
